@@ -41,6 +41,8 @@ CL22_WITNESS = ("(mod (X (Y . Z)) (include *standard-cl-22*) (defun-inline sq (A
 # nested lets in a function: two synthetic helpers without inline preference; deinline_opt's greedy
 # size search visits them in hash order and settles on different programs
 DEINLINE_WITNESS = "(mod (X1) (include DIALECT) (defun G (A) (let ((P (+ A 3))) (let ((R (* P P))) (list P R R)))) (G X1))"
+CSE_WITNESS = ("(mod (X Y) (include DIALECT) (defun f (A B) (list (sha256 (+ A 1) (+ A 1) (+ A 1)) "
+               "(sha256 (* B 17) (* B 17) (* B 17)))) (f X Y))")
 SAMPLE_ENVS = ["(1 2 3)", "((1 2) 3)", "(5)", "()", "(100 (7 8) 9)", "(-3 . 7)"]
 
 
@@ -79,6 +81,17 @@ def targeted(rng, dialects=None):
             defs.append(f"(defconst K{i} (+ {i} " + " ".join(f"(* 2 {x})" for x in deps) + "))")
         rng.shuffle(defs)
         out.append(("classic-defconst-chain", None, "(mod (X) " + " ".join(defs) + " (list X " + " ".join(names) + "))"))
+    # several independent common subexpressions in one function (cl23+ CSE puts them in one parallel let, in the
+    # order of the tree hashes of the RENAMED forms, which contain the name counter)
+    for d in ("*standard-cl-23*", "*standard-cl-23.1*", "*standard-cl-24*"):
+        if dialects is not None and d not in dialects:
+            continue
+        out.append(("cse-commons", d, CSE_WITNESS.replace("DIALECT", d)))
+        k = rng.randrange(2, 5)
+        ops = ["+", "*", "-", "logxor", "logior"]
+        subs = [f"({ops[i % len(ops)]} {'AB'[i % 2]} {rng.randrange(2, 90)})" for i in range(k)]
+        body = "(list " + " ".join(f"(sha256 {e} {e} {e})" for e in subs) + ")"
+        out.append(("cse-commons", d, f"(mod (X Y) (include {d}) (defun f (A B) {body}) (f X Y))"))
     out.append(("cl22-witness", "*standard-cl-22*", CL22_WITNESS))
     for d in ("*standard-cl-23*", "*standard-cl-23.1*", "*standard-cl-24*"):
         out.append(("deinline-witness", d, DEINLINE_WITNESS.replace("DIALECT", d)))
@@ -179,6 +192,29 @@ def classify_diff(stepping, base, var, kind):
     return out
 
 
+def repeated_subexprs(src):
+    """number of distinct list subexpressions that occur at least twice in the source text (what cl23+ CSE extracts)."""
+    toks = re.findall(r"\(|\)|[^\s()]+", src)
+    seen = {}
+    stack = []
+    for t in toks:
+        if t == "(":
+            stack.append([])
+        elif t == ")":
+            if not stack:
+                return 0
+            done = "(" + " ".join(stack.pop()) + ")"
+            if stack:
+                stack[-1].append(done)
+            if len(done) > 6:
+                seen[done] = seen.get(done, 0) + 1
+        elif stack:
+            stack[-1].append(t)
+    rep = [k for k, v in seen.items() if v >= 2]
+    # count maximal ones only (a repeated expression inside another repeated expression is the same detection)
+    return len([k for k in rep if not any(k != o and k in o for o in rep)])
+
+
 def reclassify(case, full, sig, detail):
     """narrow signature of the deinline finding: dialect stepping >= 23, the source has let / let* /
     assign forms (the only source of helpers without an inline preference), both programs compile,
@@ -187,7 +223,9 @@ def reclassify(case, full, sig, detail):
     if not sig.startswith("purity:bytes-") and not sig.startswith("purity:symbols-"):
         return sig, detail
     m = re.search(r"dialect=(\d+):", full)
-    if not m or int(m.group(1)) < 23 or not re.search(r"\((let\*?|assign)\s", case["source"]):
+    has_binding = bool(re.search(r"\((let\*?|assign)\s", case["source"]))
+    commons = repeated_subexprs(case["source"])
+    if not m or int(m.group(1)) < 23 or not (has_binding or commons >= 2):
         return sig, detail
     if sig.startswith("purity:symbols-"):
         return sig, detail      # decided by the caller together with the bytes of the same case
@@ -200,6 +238,9 @@ def reclassify(case, full, sig, detail):
         lines += [f"{pm.group(1)} {eh}", f"{pm.group(2)} {eh}"]
     outs = lib.run_impl("base", lines)
     same = all(outs[i] == outs[i + 1] for i in range(0, len(outs), 2)) and any(o.startswith("ok") for o in outs)
+    if same and not has_binding:
+        return "purity:cl23-cse-order", ("two different programs for the same source (same results on sample arguments; "
+                                         f"{commons} distinct repeated subexpressions, no binding form): " + detail)
     if same:
         return "purity:cl23-deinline-order", ("two different programs for the same source (same results on sample arguments): " + detail)
     return sig, "programs also BEHAVE differently on sample arguments: " + detail
@@ -312,6 +353,8 @@ def dynamic(chk, cases, nproc, threads):
             if any(sig == "purity:cl23-deinline-order" for sig, _ in bad):
                 # symbol keys are tree hashes of the functions: they move with the inlining decision
                 bad = [("purity:cl23-deinline-order" if sig.startswith("purity:symbols-") else sig, d) for sig, d in bad]
+            if any(sig == "purity:cl23-cse-order" for sig, _ in bad):
+                bad = [("purity:cl23-cse-order" if sig.startswith("purity:symbols-") else sig, d) for sig, d in bad]
             seen = set()
             for sig, detail in bad:
                 if sig in seen:
